@@ -11,15 +11,16 @@ COMPRESSIONS = ['Uncompressed', 'ZIP', 'ZLIB', 'BZ2']
 RECIPIENTS = ['rsa1024_1', 'rsa2048_1', 'rsa3072_0', 'cv25519_0', 'ecdh_p256_0', 'ecdh_p384_0', 'ecdh_p521_0', 'ecdh_k256_0', 'ecdh_p256_1+kdf10.9', 'cv25519_1+kdf9.8']
 
 
-def recipient(name, as_subkey=True):
-    """-> (private PGPKey able to decrypt, raw material of the encrypting component)"""
+def recipient(name, as_subkey=True, flags='both'):
+    """-> (private PGPKey able to decrypt, raw material of the encrypting component); flags: which of the two encryption capabilities the
+    encrypting component is granted ('both', 'comm', 'storage')"""
     from pgpy.constants import KeyFlags
     m = pool.mat(name)
-    enc = {KeyFlags.EncryptCommunications, KeyFlags.EncryptStorage}
+    enc = {'both': {KeyFlags.EncryptCommunications, KeyFlags.EncryptStorage}, 'comm': {KeyFlags.EncryptCommunications}, 'storage': {KeyFlags.EncryptStorage}}[flags]
     if m['alg'] == 1 and not as_subkey:
-        k = pool.pgpy_key(name, uid='RSA recipient ' + name, usage={KeyFlags.Certify, KeyFlags.Sign} | enc)
+        k = pool.pgpy_key(name, uid='RSA recipient %s %s' % (name, flags), usage={KeyFlags.Certify, KeyFlags.Sign} | enc)
     else:
-        k = pool.pgpy_key('ed25519_2', uid='recipient with subkey ' + name, sub=name, sub_usage=enc)
+        k = pool.pgpy_key('ed25519_2', uid='recipient with subkey %s %s' % (name, flags), sub=name, sub_usage=enc)
     return k, m
 
 
